@@ -37,6 +37,7 @@ type Val struct {
 	Fs  []Val   // struct fields / tuple members
 	Loc *Loc    // for KPtr: precise location when known at generation time
 	C   *big.Int // constant value of an integer, when known
+	NZ  *big.Int // for non-negative integers: mask of the bits that may be non-zero (nil = unknown)
 }
 
 type LocKind int
